@@ -391,7 +391,7 @@ def config_from_fits(filename: str) -> NssConfig:
             "initial_position": {
                 "altitude": d("initial_position altitude"),
                 "latitude": d("initial_position latitude"),
-                "longitude": d("initial_position latitude"),
+                "longitude": d("initial_position longitude"),
             },
             "name": d("name"),
             "optical": {
